@@ -343,6 +343,12 @@ func (s *grpcServer) fillDirectories(ctx context.Context, resp *pb.GetTreeRespon
 	// Recursively append all the child dirs.
 	for _, dirNode := range dir.Directories {
 
+		if dirNode == nil || dirNode.Digest == nil {
+			// The Directory came from a stored blob, which any client
+			// may have uploaded: don't assume it is well formed.
+			return errNilDigest
+		}
+
 		err := s.validateHash(dirNode.Digest.Hash, dirNode.Digest.SizeBytes, errorPrefix)
 		if err != nil {
 			return err
